@@ -86,6 +86,50 @@ def search(chk, r, n, max_pto):
         chk.search_case("xs_vs_sf_same_run", ok, what=f"{name} ({process},{proj},TMC={tmc}) != coefficient combination of the structure functions of the same run", data=sample, sample=sample, nontrivial=scale > 0)
 
 
+def check_xs(chk, oracle, th, obs_kw, kind, fl, pt, label):
+    from yadism.esf import exs
+
+    sfs = ["g4", "gL", "g1"] if kind == "g5" else ["F2", "FL", "F3"]
+    name = f"{kind}_{fl}"
+    obs = {name: [dict(pt)]}
+    for s_ in sfs:
+        obs[f"{s_}_{fl}"] = [dict(x=pt["x"], Q2=pt["Q2"])]
+    out = realrun.run(th, cards.obs(obs, interpolation_xgrid=cards.default_grid(8, 1e-2), **obs_kw))
+    c = exs.xs_coeffs_polarized(kind) if kind == "g5" else exs.xs_coeffs_unpolarized(kind, pt["y"], x=pt["x"], Q2=pt["Q2"], params=dict(projectilePID=cards.PROJECTILES[obs_kw["ProjectileDIS"]], M2target=th["MP"] ** 2, M2W=th["MW"] ** 2, GF=th["GF"]))
+    xs = out[name][0]
+    parts = [out[f"{s_}_{fl}"][0] for s_ in sfs]
+    worst = scale = 0.0
+    for k in set(xs.orders) | set().union(*[set(p.orders) for p in parts]):
+        exp = sum(float(ci) * np.asarray(p.orders[k][0]) for ci, p in zip(c, parts) if k in p.orders)
+        got = np.asarray(xs.orders[k][0]) if k in xs.orders else 0.0
+        worst = max(worst, float(np.abs(got - exp).max()))
+        scale = max(scale, float(np.abs(exp).max()))
+    sample = dict(step=label, kind=kind, projectile=obs_kw["ProjectileDIS"], MW=th["MW"], point=pt, maxdiff=worst, scale=scale)
+    chk.search_case(oracle, worst <= 1e-12 * max(scale, 1e-300), what=f"{name} ({label}) != coefficient combination of the structure functions of the same run", data=sample, sample=sample, nontrivial=scale > 0)
+
+
+def search_sequences(chk, r):
+    """several runs in one process with the same kind and kinematics but another lepton / W mass /
+    target mass: nothing may be carried over from one run to the next"""
+    pt = dict(x=0.2, Q2=60.0, y=0.6)
+    steps = [
+        ("XSHERANC", "NC", "electron", {}),
+        ("XSHERANC", "NC", "positron", {}),
+        ("XSNUTEVCC", "CC", "neutrino", {}),
+        ("XSNUTEVCC", "CC", "neutrino", dict(MW=70.0)),
+        ("XSNUTEVCC", "CC", "antineutrino", {}),
+        ("XSCHORUSCC", "CC", "antineutrino", dict(MP=1.2)),
+        ("XSCHORUSCC", "CC", "antineutrino", dict(GF=2e-5)),
+    ]
+    for i, (kind, process, proj, th_kw) in enumerate(steps):
+        try:
+            check_xs(chk, "xs_runs_in_sequence", cards.theory(PTO=0, **th_kw), dict(prDIS=process, ProjectileDIS=proj), kind, "total", pt, f"run {i + 1}: {proj} {th_kw}")
+        except Exception as e:
+            chk.extra.setdefault("search_exceptions", {})
+            k = f"seq:{type(e).__name__}:{str(e)[:80]}"
+            chk.extra["search_exceptions"][k] = chk.extra["search_exceptions"].get(k, 0) + 1
+
+
 def run(tier):
     chk = common.Check("C11", tier)
     thorough = tier == "thorough"
@@ -93,6 +137,7 @@ def run(tier):
     r = common.rng("C11")
     corr(chk, r, 5000 if thorough else 500)
     search(chk, r, 150 if thorough else 16, 2 if thorough else 1)
+    search_sequences(chk, r)
     chk.assumptions += [
         "np.pi and sqrt(M2target) enter the model as parameters (rational value of the double)",
         "the documented table is transcribed by hand from docs/source/theory/intro.rst into Properties/C11.lean (XSFPFCC after the doc fix e936043f)",
